@@ -16,6 +16,7 @@ import (
 	"github.com/ipfs/go-cid"
 	"github.com/ipld/go-ipld-prime"
 	"github.com/ipld/go-ipld-prime/codec/dagcbor"
+	mh "github.com/multiformats/go-multihash"
 	"pgregory.net/rapid"
 
 	"github.com/ucan-wg/go-ucan/pkg/container"
@@ -147,15 +148,51 @@ func runAddr(c *h.Ctx, ac AddrCase) {
 			c.Fail("C08/address/"+dc.name, "%s reported %s, seal reported %s, reference %x", dc.name, got, id, refCID(sealed))
 		}
 	}
-	// container key
-	w := container.NewWriter()
-	w.AddSealed(id, sealed)
-	if cb, err := w.ToCbor(); err == nil {
-		if r, err := container.FromCbor(cb); err == nil {
-			for k := range r {
-				if !cidOK(k, sealed) {
-					c.Fail("C08/address/container-key", "container key %s is not the CID of the sealed bytes", k)
+	// container key: whatever CID the writer was handed for the sealed bytes (the true one, the same digest
+	// under another codec or CID version, or a different hash function), a reader either fails or files the
+	// token under the CID of its sealed bytes - in all four formats, bytes and stream readers alike
+	dg, _ := mh.Sum(sealed, mh.SHA2_256, -1)
+	dg512, _ := mh.Sum(sealed, mh.SHA2_512, -1)
+	labels := map[string]cid.Cid{"true": id, "raw-codec": cid.NewCidV1(cid.Raw, dg), "cidv0": cid.NewCidV0(dg),
+		"dag-json-codec": cid.NewCidV1(cid.DagJSON, dg), "sha2-512": cid.NewCidV1(cid.DagCBOR, dg512)}
+	type rd struct {
+		name string
+		enc  func(container.Writer) ([]byte, error)
+		dec  func([]byte) (container.Reader, error)
+	}
+	readers := []rd{
+		{"cbor", container.Writer.ToCbor, container.FromCbor},
+		{"cbor/reader", container.Writer.ToCbor, func(b []byte) (container.Reader, error) { return container.FromCborReader(bytes.NewReader(b)) }},
+		{"cborb64", container.Writer.ToCborBase64, container.FromCborBase64},
+		{"car", container.Writer.ToCar, container.FromCar},
+		{"car/reader", container.Writer.ToCar, func(b []byte) (container.Reader, error) { return container.FromCarReader(iotest.DataErrReader(bytes.NewReader(b))) }},
+		{"carb64", container.Writer.ToCarBase64, container.FromCarBase64},
+		{"carb64/reader", container.Writer.ToCarBase64, func(b []byte) (container.Reader, error) { return container.FromCarBase64Reader(bytes.NewReader(b)) }},
+	}
+	for lbl, key := range labels {
+		w := container.NewWriter()
+		w.AddSealed(key, sealed)
+		for _, r := range readers {
+			cb, err := r.enc(w)
+			if err != nil {
+				continue
+			}
+			got, err := r.dec(cb)
+			if err != nil {
+				c.P.Class("container-key/" + lbl + "/rejected")
+				if lbl == "true" {
+					c.Fail("C08/address/container-rejects-honest/"+r.name, "%s rejects a container holding one honest token under its true CID: %v", r.name, err)
 				}
+				continue
+			}
+			c.P.Class("container-key/" + lbl + "/accepted")
+			for k := range got {
+				if !cidOK(k, sealed) {
+					c.Fail("C08/address/container-key/"+lbl, "%s: token written under a %s CID is filed under %s, which is not the CID of its sealed bytes (%s)", r.name, lbl, k, id)
+				}
+			}
+			if _, err := got.GetToken(id); err != nil && len(got) > 0 {
+				c.Fail("C08/address/container-key/"+lbl, "%s: token not retrievable under the CID of its sealed bytes", r.name)
 			}
 		}
 	}
